@@ -22,6 +22,8 @@ type config struct {
 	Namespaces bool
 	SamePrefix bool
 	Deep       bool
+	Wide       bool
+	Undeclare  bool
 }
 
 type gen struct {
@@ -71,7 +73,11 @@ func (g *gen) element(depth int) {
 			}
 			used[p] = true
 			nid := g.nid()
-			g.events = append(g.events, simio.Event{Node: &simio.SNS{ID: nid, Pfx: p, URI: fmt.Sprintf("urn:%d", nid)}})
+			uri := fmt.Sprintf("urn:%d", nid)
+			if g.cfg.Undeclare && p == "" && g.t.Bool(1, 3) {
+				uri = "" // xmlns="": hides the inherited default namespace and is no node itself
+			}
+			g.events = append(g.events, simio.Event{Node: &simio.SNS{ID: nid, Pfx: p, URI: uri}})
 		}
 	}
 	na := g.t.Pick(4, 2, 1)
@@ -90,7 +96,12 @@ func (g *gen) element(depth int) {
 		}
 	} else if depth < g.cfg.MaxDepth {
 		nc := g.t.Geo(5)
-		for i := 0; i < nc && len(g.events) < g.cfg.MaxEvents; i++ {
+		limit := g.cfg.MaxEvents
+		if g.cfg.Wide && g.t.Bool(1, 4) {
+			nc = 17 + g.t.Draw(120)
+			limit = len(g.events) + 3*nc
+		}
+		for i := 0; i < nc && len(g.events) < limit; i++ {
 			if g.t.Bool(1, 2) {
 				g.element(depth + 1)
 			} else {
@@ -109,6 +120,8 @@ func generate(t *simkit.Tape) (*gen, config) {
 	cfg.Namespaces = t.Bool(3, 4)
 	cfg.SamePrefix = t.Bool(1, 3)
 	cfg.Deep = t.Bool(1, 12)
+	cfg.Wide = t.Bool(1, 6)
+	cfg.Undeclare = t.Bool(1, 3)
 	if cfg.Deep {
 		cfg.MaxDepth = 40 + t.Draw(160)
 		cfg.MaxEvents = 2000
@@ -186,7 +199,20 @@ func fold(events []simio.Event) *refNode {
 			cur.n.Children = append(cur.n.Children, k.n)
 		}
 	}
+	undeclare(root)
 	return root
+}
+
+// undeclare applies the data-model rule for xmlns="": an empty default
+// namespace hides the inherited binding (already done by the overriding fold)
+// and is not a namespace node itself.
+func undeclare(r *refNode) {
+	if v, ok := r.ns[""]; ok && v.(*simio.SNS).URI == "" {
+		delete(r.n.InScope, "")
+	}
+	for _, k := range r.kids {
+		undeclare(k)
+	}
 }
 
 func safeCreate(p store.Cursor, f func() (store.Cursor, error)) (c store.Cursor, err error, pan string) {
@@ -293,6 +319,34 @@ func Run(t *simkit.Tape, o *simkit.Outcome, full bool) {
 		o.Violate(P, "shape", "shape", "tree differs from the reference model: %s\nhistory: %s", model.FirstDiff(want, got), hist)
 	} else {
 		identity(o, hist, c, ref, "")
+	}
+	// a later, unrelated build must not disturb this tree (allocator / pool state)
+	if t.Bool(1, 3) && len(o.Violations) == 0 {
+		g2, _ := generate(t)
+		c2, err2, pan2 := safeCreate(nil, func() (store.Cursor, error) {
+			m, e := store.CreateInMemory(&simio.ScriptParser{Events: g2.events})
+			if m == nil {
+				return nil, e
+			}
+			return m, e
+		})
+		o.Evals++
+		o.Probe("second-build-then-recheck")
+		if pan2 != "" || err2 != nil || c2 == nil {
+			o.Violate(P, "conforming-history-rejected", "second-build-failed", "a second CreateInMemory failed: %v %s", err2, pan2)
+		} else {
+			again := model.Snap(c)
+			for _, p := range again.Problems {
+				o.Violate(P, "earlier-tree-disturbed", "earlier-tree-disturbed", "after building another tree, the first tree is damaged: %s\nhistory A: %s\nhistory B: %s", p.Detail, hist, renderEvents(g2.events))
+			}
+			if g := again.Tree.Render(true, true); g != got {
+				o.Violate(P, "earlier-tree-disturbed", "earlier-tree-disturbed", "after building another tree, the first tree changed: %s\nhistory A: %s\nhistory B: %s", model.FirstDiff(got, g), hist, renderEvents(g2.events))
+			}
+			ref2 := fold(g2.events)
+			if w2, g2r := ref2.n.Render(true, true), model.Snap(c2).Tree.Render(true, true); w2 != g2r {
+				o.Violate(P, "shape", "shape:second-build", "second tree differs from the reference model: %s\nhistory: %s", model.FirstDiff(w2, g2r), renderEvents(g2.events))
+			}
+		}
 	}
 	// overridden / inherited namespace probes
 	var probe func(r *refNode, parent *refNode)
